@@ -1,4 +1,4 @@
-import HexProofs.Writes.Agree
+import HexProofs.Writes.Strip
 /-
 Key locality, part 3: `_calculate_reading` of every kind (`calcKind`) changes the candles only
 through the two framework services (`Ops.setManaged`, `Ops.calcManaged`) and – MACD only – one
@@ -7,19 +7,21 @@ temporary insert under the indicator's own name.
 namespace Hex
 variable {F : Type}
 
-/-- the services only write under listed names (the induction hypothesis of the engine theorem) -/
+/-- the services only write under listed names, in the strong (`StripEq`) sense – the induction
+hypothesis of the engine theorem -/
 structure OpsLocal (names : List String) (ops : Ops F) : Prop where
-  hset : ∀ key v cs cs', ops.setManaged key v cs = .ok cs' → AgreeOff names cs cs'
-  hcalc : ∀ key cs cs', ops.calcManaged key cs = .ok cs' → AgreeOff names cs cs'
+  hset : ∀ key v cs cs', ops.setManaged key v cs = .ok cs' → StripEq names cs cs'
+  hcalc : ∀ key cs cs', ops.calcManaged key cs = .ok cs' → StripEq names cs cs'
 
-/-- every successful result of `m` carries candles that agree with `cs0` off `names` -/
+/-- every successful result of `m` carries candles that equal `cs0` once the entries under `names`
+are dropped -/
 def Tracks (names : List String) (cs0 : List (Candle F)) (m : PyM (Val F × List (Candle F))) : Prop :=
-  ∀ v cs', m = .ok (v, cs') → AgreeOff names cs0 cs'
+  ∀ v cs', m = .ok (v, cs') → StripEq names cs0 cs'
 
 namespace Tracks
 variable {names : List String} {cs0 : List (Candle F)}
 
-theorem pure' {v : Val F} {cs : List (Candle F)} (h : AgreeOff names cs0 cs) :
+theorem pure' {v : Val F} {cs : List (Candle F)} (h : StripEq names cs0 cs) :
     Tracks names cs0 (pure (v, cs)) := by
   intro v' cs' e; cases e; exact h
 
@@ -32,8 +34,8 @@ theorem bind {α : Type} (m : PyM α) (f : α → PyM (Val F × List (Candle F))
 
 /-- a bind whose first part is itself a write that is known to stay within `names` -/
 theorem bindW (m : PyM (List (Candle F))) (f : List (Candle F) → PyM (Val F × List (Candle F)))
-    (hm : ∀ a, m = .ok a → AgreeOff names cs0 a)
-    (hf : ∀ a, AgreeOff names cs0 a → Tracks names cs0 (f a)) : Tracks names cs0 (m >>= f) := by
+    (hm : ∀ a, m = .ok a → StripEq names cs0 a)
+    (hf : ∀ a, StripEq names cs0 a → Tracks names cs0 (f a)) : Tracks names cs0 (m >>= f) := by
   intro v cs' e
   cases m with
   | error err => cases e
@@ -52,12 +54,12 @@ section
 variable {names : List String} {ops : Ops F} (hops : OpsLocal names ops)
 include hops
 
-theorem OpsLocal.setW {cs0 cs : List (Candle F)} (h : AgreeOff names cs0 cs) (key : String) (v : Val F) :
-    ∀ a, ops.setManaged key v cs = .ok a → AgreeOff names cs0 a :=
+theorem OpsLocal.setW {cs0 cs : List (Candle F)} (h : StripEq names cs0 cs) (key : String) (v : Val F) :
+    ∀ a, ops.setManaged key v cs = .ok a → StripEq names cs0 a :=
   fun a e => h.trans (hops.hset key v cs a e)
 
-theorem OpsLocal.calcW {cs0 cs : List (Candle F)} (h : AgreeOff names cs0 cs) (key : String) :
-    ∀ a, ops.calcManaged key cs = .ok a → AgreeOff names cs0 a :=
+theorem OpsLocal.calcW {cs0 cs : List (Candle F)} (h : StripEq names cs0 cs) (key : String) :
+    ∀ a, ops.calcManaged key cs = .ok a → StripEq names cs0 a :=
   fun a e => h.trans (hops.hcalc key cs a e)
 end
 
@@ -72,16 +74,16 @@ macro "track_step" hops:ident : tactic => `(tactic| first
   | (split))
 
 macro "track" hops:ident : tactic => `(tactic| (
-  have h0 := AgreeOff.refl _ _
+  have h0 := StripEq.refl _ _
   repeat (first | track_step $hops | (dsimp only; track_step $hops))))
 
 variable [PyF F] {names : List String} {ops : Ops F}
 
 omit [PyF F] in
-theorem updateAt_setInds_W {cs0 cs : List (Candle F)} (h : AgreeOff names cs0 cs) (n : String)
+theorem updateAt_setInds_W {cs0 cs : List (Candle F)} (h : StripEq names cs0 cs) (n : String)
     (hn : n ∈ names) (i : Int) (v : Val F) :
-    ∀ a, updateAt cs i (fun c => { c with inds := dset n v c.inds }) = .ok a → AgreeOff names cs0 a :=
-  fun a e => h.trans (updateAt_agree _ (fun c => CandleAgreeOff.set_inds n v hn c) cs a i e)
+    ∀ a, updateAt cs i (fun c => { c with inds := dset n v c.inds }) = .ok a → StripEq names cs0 a :=
+  fun a e => h.trans (updateAt_stripEq _ (fun c => strip_setInds_mem hn v c) cs a i e)
 
 macro "track_all" hops:ident : tactic => `(tactic| (
   repeat (first | track_step $hops | (dsimp only; track_step $hops))))
@@ -89,56 +91,56 @@ macro "track_all" hops:ident : tactic => `(tactic| (
 theorem Calc.hma_tracks (hops : OpsLocal names ops) (x : Ctx F) :
     Tracks names x.cs (Calc.hma ops x) := by
   unfold Calc.hma
-  have h0 := AgreeOff.refl names x.cs
+  have h0 := StripEq.refl names x.cs
   track_all hops
 
 theorem Calc.stdev_tracks (hops : OpsLocal names ops) (x : Ctx F) (p : Int) (input : String) :
     Tracks names x.cs (Calc.stdev ops x p input) := by
   unfold Calc.stdev
-  have h0 := AgreeOff.refl names x.cs
+  have h0 := StripEq.refl names x.cs
   track_all hops
 
 theorem Calc.supertrend_tracks (hops : OpsLocal names ops) (x : Ctx F) (m : Num F) :
     Tracks names x.cs (Calc.supertrend ops x m) := by
   unfold Calc.supertrend
-  have h0 := AgreeOff.refl names x.cs
+  have h0 := StripEq.refl names x.cs
   track_all hops
 
 theorem Calc.rsi_tracks (hops : OpsLocal names ops) (x : Ctx F) (p : Int) (input : String) :
     Tracks names x.cs (Calc.rsi ops x p input) := by
   unfold Calc.rsi
-  have h0 := AgreeOff.refl names x.cs
+  have h0 := StripEq.refl names x.cs
   track_all hops
 
 theorem Calc.stoch_tracks (hops : OpsLocal names ops) (x : Ctx F) (p : Int) (input : String) :
     Tracks names x.cs (Calc.stoch ops x p input) := by
   unfold Calc.stoch
-  have h0 := AgreeOff.refl names x.cs
+  have h0 := StripEq.refl names x.cs
   track_all hops
 
 theorem Calc.vwap_tracks (hops : OpsLocal names ops) (x : Ctx F) :
     Tracks names x.cs (Calc.vwap ops x) := by
   unfold Calc.vwap
-  have h0 := AgreeOff.refl names x.cs
+  have h0 := StripEq.refl names x.cs
   track_all hops
 
 theorem Calc.tsi_tracks (hops : OpsLocal names ops) (x : Ctx F) (input : String) :
     Tracks names x.cs (Calc.tsi ops x input) := by
   unfold Calc.tsi
-  have h0 := AgreeOff.refl names x.cs
+  have h0 := StripEq.refl names x.cs
   track_all hops
 
 theorem Calc.adx_tracks (hops : OpsLocal names ops) (x : Ctx F) :
     Tracks names x.cs (Calc.adx ops x) := by
   unfold Calc.adx
-  have h0 := AgreeOff.refl names x.cs
+  have h0 := StripEq.refl names x.cs
   track_all hops
 
 /-- MACD additionally inserts a temporary reading under its OWN name -/
 theorem Calc.macd_tracks (hops : OpsLocal names ops) (x : Ctx F) (hn : x.name ∈ names) :
     Tracks names x.cs (Calc.macd ops x) := by
   unfold Calc.macd
-  have h0 := AgreeOff.refl names x.cs
+  have h0 := StripEq.refl names x.cs
   repeat (first
     | (refine Tracks.bindW (updateAt _ _ _) _ (updateAt_setInds_W (by assumption) _ hn _ _) (fun _ _ => ?_))
     | track_step hops | (dsimp only; track_step hops))
@@ -150,12 +152,12 @@ theorem tracks_pure (x : Ctx F) (r : PyM (Val F)) :
   intro v cs' e
   cases r with
   | error err => cases e
-  | ok a => cases e; exact AgreeOff.refl _ _
+  | ok a => cases e; exact StripEq.refl _ _
 
 /-- **`_calculate_reading` of every kind writes only through the services and under its own name.** -/
-theorem calcKind_agree (hops : OpsLocal names ops) (ind : Ind F) (x : Ctx F) (hn : x.name ∈ names)
+theorem calcKind_stripEq (hops : OpsLocal names ops) (ind : Ind F) (x : Ctx F) (hn : x.name ∈ names)
     (v : Val F) (cs' : List (Candle F)) (h : calcKind ops ind x = .ok (v, cs')) :
-    AgreeOff names x.cs cs' := by
+    StripEq names x.cs cs' := by
   revert v cs'
   show Tracks names x.cs (calcKind ops ind x)
   unfold calcKind
@@ -172,6 +174,6 @@ theorem calcKind_agree (hops : OpsLocal names ops) (ind : Ind F) (x : Ctx F) (hn
     | exact Calc.tsi_tracks hops x _
     | exact Calc.adx_tracks hops x
     | exact Calc.vwap_tracks hops x
-    | (intro v cs' e; cases e; exact AgreeOff.refl _ _)
+    | (intro v cs' e; cases e; exact StripEq.refl _ _)
 
 end Hex
